@@ -909,6 +909,20 @@ func (l *Lifter) srBlock(stmts []ast.Stmt, counts map[string]*countVar, limited 
 				}
 			}
 		case *ast.ExprStmt:
+			// iohelp.ReadUint32(r) as a statement: the length prefix is taken off
+			// the stream and dropped
+			if name, _, ok := l.readStreamCall(x.X); ok && name == "ReadUint32" && top {
+				items = append(items, Item{Kind: KPrefix, Tag: -1, Pos: s.Pos()})
+				continue
+			}
+			// any other stream read as a statement: a value of that width is taken
+			// off the stream and dropped
+			if name, _, ok := l.readStreamCall(x.X); ok && strings.HasPrefix(name, "Read") {
+				if _, known := widthOfStem[strings.TrimPrefix(name, "Read")]; known {
+					items = append(items, Item{Kind: KScalar, Prim: strings.TrimPrefix(name, "Read"), Operand: "_", Pos: s.Pos()})
+					continue
+				}
+			}
 			// r.Read(dst)
 			if recv, c, ok := methodCall(x.X, "Read"); ok && l.isIdent(recv, "r") && len(c.Args) == 1 {
 				items = append(items, Item{Kind: KRaw, Operand: l.op(c.Args[0]), Pos: s.Pos()})
@@ -922,6 +936,19 @@ func (l *Lifter) srBlock(stmts []ast.Stmt, counts map[string]*countVar, limited 
 				continue
 			}
 		case *ast.DeferStmt:
+			// defer func(base io.Reader) { r.Reader = base }(r.Reader): the argument
+			// is evaluated here and now — the base reader if the limiter is not
+			// installed yet, the limiter itself (a restore that restores nothing)
+			// if it is
+			if fl, ok := unparen(x.Call.Fun).(*ast.FuncLit); ok && top && len(x.Call.Args) == 1 && Canon(x.Call.Args[0]) == "r.Reader" &&
+				len(fl.Type.Params.List) == 1 && len(fl.Type.Params.List[0].Names) == 1 && len(fl.Body.List) == 1 {
+				if as, ok := fl.Body.List[0].(*ast.AssignStmt); ok && len(as.Lhs) == 1 && len(as.Rhs) == 1 && Canon(as.Lhs[0]) == "r.Reader" && Canon(as.Rhs[0]) == fl.Type.Params.List[0].Names[0].Name {
+					if !*limited {
+						l.Lim.DeferredRestore = true
+					}
+					continue
+				}
+			}
 			// defer func() { r.Drain(); r.Reader = baseReader }()
 			if fl, ok := unparen(x.Call.Fun).(*ast.FuncLit); ok && top && len(x.Call.Args) == 0 && *limited {
 				drain, restore, other := false, false, false
@@ -1031,6 +1058,26 @@ func (l *Lifter) srBlock(stmts []ast.Stmt, counts map[string]*countVar, limited 
 				}
 			}
 		case *ast.IfStmt:
+			// if <test of the length prefix> { r.Reader = &io.LimitedReader{…} }: the
+			// body is bounded for some prefixes only
+			if top && l.Lim.PrefixVar != "" && !l.Lim.Installed && x.Init == nil && x.Else == nil && len(x.Body.List) == 1 {
+				if as, ok := x.Body.List[0].(*ast.AssignStmt); ok && len(as.Lhs) == 1 && len(as.Rhs) == 1 && as.Tok == token.ASSIGN && Canon(as.Lhs[0]) == "r.Reader" {
+					if _, _, _, isLim := l.limitedReaderLit(as.Rhs[0]); isLim || pendingLimit[Canon(as.Rhs[0])] {
+						mentions := false
+						ast.Inspect(x.Cond, func(n ast.Node) bool {
+							if id, ok := n.(*ast.Ident); ok && id.Name == l.Lim.PrefixVar {
+								mentions = true
+							}
+							return true
+						})
+						if mentions {
+							l.fail("limiter", "", x.Pos(), "the body limiter is installed only when %s: for the other length prefixes the record's reads are not bounded by its declared length (a terminator or an unknown field is read from what follows the record)", Canon(x.Cond))
+							// the paths diverge: treated as not installed
+							continue
+						}
+					}
+				}
+			}
 			// if <test of the length prefix> { return r.Err } between the prefix and
 			// the limiter: a shortcut that leaves the announced body on the stream
 			if top && l.Lim.PrefixVar != "" && !l.Lim.Installed && x.Init == nil && x.Else == nil && len(x.Body.List) == 1 {
